@@ -152,14 +152,33 @@ def handleReader (l : Line) (O : Oracles) : IO Unit := do
     IO.println s!"spec {l.id} {showSRec rec}"
   IO.println s!"spec {l.id} end n={srecs.length} failed=- units={showUnits sunits} clone=ok"
 
-/-- N4: some input path is literally `q#<n>` for a path `q` that occurs unlabelled more than once. -/
+/-- N4: the label generated for an occurrence of a duplicated unlabelled path `q` (`q#n`) is also
+the label of another entry (a path literally named `q#n`, or a user label `q#n=…`). -/
 def isN4 (paths : List Bytes) (allowLabels : Bool) : Bool :=
   let es := paths.map (Spec.Format.splitEntry allowLabels)
   let unl := (es.filter (·.1.isNone)).map (·.2)
-  let dups := unl.filter (fun p => unl.count p > 1)
   let labs := Spec.Format.labels paths allowLabels
-  let unlLabs := ((es.zip labs).filter (·.1.1.isNone)).map (·.2)
-  !dups.isEmpty && decide (unlLabs.eraseDups.length ≠ unlLabs.length)
+  let isDup (e : Option Bytes × Bytes) : Bool := e.1.isNone && unl.count e.2 > 1
+  let gen := ((es.zip labs).filter (fun p => isDup p.1)).map (·.2)
+  let other := ((es.zip labs).filter (fun p => !isDup p.1)).map (·.2)
+  gen.any (fun g => other.contains g)
+
+/-- The labels of an ideal run, as tokens: a labelled entry and a unique path carry their label
+(`L…`); the k-th occurrence of a duplicated unlabelled path `p` carries a token `D p#k` that is
+different from every `L…` token — what "duplicates are disambiguated" demands. -/
+def idealLabels (paths : List Bytes) (allowStdin allowLabels : Bool) : List String :=
+  if allowStdin && paths.isEmpty then ["L2d"] else
+  let es := paths.map (Spec.Format.splitEntry allowLabels)
+  let unl := (es.filter (·.1.isNone)).map (·.2)
+  (List.range es.length).map fun j =>
+    match es[j]? with
+    | some (some lab, _) => "L" ++ lab.toHex
+    | some (none, p) =>
+      if unl.count p == 1 then "L" ++ p.toHex
+      else
+        let k := (((es.take j).filter (·.1.isNone)).map (·.2)).count p
+        s!"D{p.toHex}#{k}"
+    | none => "?"
 
 def handleFiles (l : Line) (O : Oracles) : IO Unit := do
   let paths := (l.hexList? "paths").getD []
@@ -175,8 +194,10 @@ def handleFiles (l : Line) (O : Oracles) : IO Unit := do
   let sp := Spec.Format.readFiles O fs [] fs.stdin (Spec.Format.inputs paths allowStdin allowLabels)
   for rec in sp.recs do
     IO.println s!"spec {l.id} {showSRec rec}"
+  -- known class N4: label clash with a literal `q#n` path or user label
   let kf := if isN4 paths allowLabels then " kf=N4" else ""
-  IO.println s!"spec {l.id} end n={sp.recs.length} failed={optHex sp.failed} units={showUnits sp.units} clone=ok distinct=1{kf}"
+  let used := ((idealLabels paths allowStdin allowLabels).zip sp.results).filter (fun p => p.2 > 0)
+  IO.println s!"spec {l.id} end n={sp.recs.length} failed={optHex sp.failed} units={showUnits sp.units} clone=ok distinct={(used.map (·.1)).eraseDups.length}{kf}"
 
 def handle (l : Line) : IO Unit := do
   if l.kind != "case" then return
